@@ -56,7 +56,8 @@ QuickFaultRows == {Row3(G1(1), HET, HET), [Row3(HET, HET, HET) EXCEPT !.bad = TR
 WithPos(row, p) == [gt |-> row.gt, bad |-> row.bad, pos |-> p]
 \* two different records at the SAME position (split multiallelic site / same position on the next contig)
 SamePosRows == {WithPos(Row3(HOM1, HET, HOM0), 7), WithPos(Row3(HOM0, HOM0, HET), 7)}
-QuickHistoryRows == {Row3(HET, HOM1, HET), Row3(MISS, HOM1, HET), Row3(HET, HET, MISS), Row3(MULT, HOM0, HOM1)} \cup SamePosRows
+\* complete / one sample missing / multiallelic / EVERY selected sample missing (nothing is counted at all)
+QuickHistoryRows == {Row3(HET, HOM1, HET), Row3(MISS, HOM1, HET), Row3(MISS, MISS, MISS), Row3(MULT, HOM0, HOM1)} \cup SamePosRows
 MCSeq_hist_quick == SeqsUpTo(QuickHistoryRows \cup QuickFaultRows, 3)
 MCSeq_refine == SeqsUpTo(QuickHistoryRows \cup QuickFaultRows, 2)
 MCSeq_hist3 == SeqsUpTo(HistoryRows \cup FaultRows \cup SamePosRows, 3)
@@ -76,6 +77,14 @@ Benign == Row2(HET, HOM1)
 ProbeSeqs(C) ==
     {[r \in 1..3 |-> IF r = p THEN (IF col = "a" THEN Row2(g, HOM1) ELSE Row2(HET, g)) ELSE Benign]
         : g \in C, p \in 1..3, col \in S2}
+\* both columns selected: the other selected sample is missing / multiallelic at the probed record, in the column BEFORE
+\* or AFTER the probed call
+ListAB == {<<E("a", U), E("b", U)>>}
+ProbeSeqsBoth(C) ==
+    {[r \in 1..2 |-> IF r = p THEN (IF col = "a" THEN Row2(g, o) ELSE Row2(o, g)) ELSE Benign]
+        : g \in C, p \in 1..2, col \in S2, o \in {MISS, MULT}}
+MCSeq_gt2_small == ProbeSeqsBoth(SmallCalls)
+MCSeq_gt2_all == ProbeSeqsBoth(AllCalls)
 MCSeq_gt_all == ProbeSeqs(AllCalls)
 MCSeq_gt_small == ProbeSeqs(SmallCalls)
 ASSUME AB_SumRule \/ ClassifyLaws(AllCalls)
